@@ -1,6 +1,6 @@
 """C10 — writing never damages its inputs or the files they still read from.
 
-Stream
+Streams
   C10.hist  constructs read lazily from scratch files X (0), Y (1), M (5: a second copy of X's
             seed) [+ an in-memory twin], a derivation history (copy, Field(source=), subspace,
             squeeze, transpose, insert_dimension, get_domain, convert, del/set construct,
@@ -9,6 +9,14 @@ Stream
             with option sets, overwrite on/off, an external file, spelled absolute / relative /
             dotted / ~ / $VAR / through a symbolic link, with failures injected (argument
             validation; an exception raised from the k-th variable of item i).
+  C10.tree  the WHOLE component tree (harness/c10_tree.py): compressed arrays (ragged, gathered, subsampled,
+            UGRID bounds from nodes) rebuilt part by part through the public constructors, every kind of
+            component equally often the only file-backed one; get_original_filenames() and the write
+            against lean/Cfdm/Model/FilesTree.lean.
+  C10.path  which name is decided on, which inode is opened (harness/c10_path.py): $VAR, ${VAR}, ~, ./,
+            sub/../, a directory link, chains of symbolic links of depth 1-3, hard links, dangling links,
+            directories, an environment variable whose value contains a `$`; against
+            lean/Cfdm/Model/FilesPath.lean.
 
 Observed on the implementation and compared with the Lean model (`lean/Cfdm/Model/Files.lean`):
 get_filenames() / get_original_filenames() of the object each operation produced (field,
@@ -26,8 +34,12 @@ taken before the write and for every other register of the history; every file
 still needed by an input is byte-identical after the write, whatever the mode and the outcome;
 overwrite=False (mode w) leaves an existing file byte-identical; the interpreter survives.
 
-The model mirrors cfdm *with fixes/C10-*.patch applied* (first half of the model line); the second
-half is the code as it stands and serves to recognise the three known defects.
+C10.hist: the first half of the model line is the code at /repo HEAD, the second half the code before
+the repairs 7723aa6 / 22fef00 (it serves to recognise a regression to one of the four repaired defects).
+C10.tree / C10.path: the model prints the prediction of the code at HEAD (`old`) and of the code with
+fixes/C10-{interpolation-parameters,node-coordinates,same-inode,external-name}.patch (`new`); either
+counts as agreement, the oracle alone decides the property, and the four open findings are recognised by
+`classify` from the failing input.
 """
 import ast
 import atexit
@@ -44,6 +56,8 @@ from .. import fingerprint as FP
 from .. import fw
 from ..fw import Case
 from ..gen import fields as GF
+from .. import c10_tree as TREE
+from .. import c10_path as PATH
 
 REQUIRED = [
     "C10_need_subset_orig",
@@ -64,29 +78,72 @@ REQUIRED = [
     "C10_old_symlink_counterexample",
     "C10_old_external_counterexample",
     "C10_old_append_counterexample",
+    # the whole component tree (lean/Cfdm/Model/FilesTree.lean)
+    "C10_tree_need_subset_orig",
+    "C10_tree_wellTyped_needed",
+    "C10_tree_records_irrelevant",
+    "C10_tree_histories",
+    "C10_tree_old_partial",
+    "C10_tree_old_interp_param_counterexample",
+    "C10_tree_old_node_coordinates_counterexample",
+    # which name is decided on, which inode is opened (lean/Cfdm/Model/FilesPath.lean)
+    "C10_path_refusal_pure",
+    "C10_path_no_overwrite",
+    "C10_path_opened_names_checked",
+    "C10_path_needed_intact",
+    "C10_tree_write_safe",
+    "C10_path_footprint",
+    "C10_path_old_needed_intact_partial",
+    "C10_path_old_hard_link_append_counterexample",
+    "C10_path_old_external_expanded_twice_counterexample",
+    "C10_bystander_not_protected",
 ]
 BUDGET = {"quick": 320, "thorough": 6000}
 QUICK_JOBS = 4
 TIME_LIMIT = {"quick": 170, "thorough": 1400}
 RULE = (
-    "histories of 0-8 operations (drawn by trying them on the real objects, so every recorded operation succeeds) over "
-    "registers r0 = read(X)[i] (X spelled absolute / relative / ~ / through a symbolic link), r1 = read(Y)[j], "
+    "C10.hist (50 %): histories of 0-8 operations (drawn by trying them on the real objects, so every recorded operation "
+    "succeeds) over registers r0 = read(X)[i] (X spelled absolute / relative / ~ / through a symbolic link), r1 = read(Y)[j], "
     "r2 = read(M)[i] and an in-memory twin; seeds: example fields 0-7, ragged contiguous / indexed / indexed contiguous, "
     "gathered, geometry and interior-ring test files, random fields, Field.compress('contiguous'|'indexed'|"
     "'indexed_contiguous') results and gathered fields built in memory (cfdm.GatheredArray + cfdm.List) whose count / "
     "index / list variables have no netCDF name or one that is taken in the output (another item's, a coordinate's, the "
     "field's own); then one write of 1-3 items (registers or their "
     ".domain view) to X, Y, Z (existing, unrelated), W (absent), L (symbolic link to X or Z) or M, mode w/a/r+, "
-    "overwrite on/off, option sets, external file, injected failures.  non-trivial = some written item still needs a "
-    "file; distinct = distinct (seeds, history, write request)"
+    "overwrite on/off, option sets, external file, injected failures.  "
+    "C10.tree (25 %): a field read from X (seeds: subsampled, UGRID, ragged, gathered, geometry, interior-ring test files) "
+    "or from its copy M or rebuilt record-free in memory; 1-4 steps (a compressed array rebuilt through its public "
+    "constructor with each part - underlying array, count / index / list / tie point index / interpolation parameter "
+    "variables, dependent tie points, node coordinates - kept, taken from the twin dataset, brought to memory or wrapped in "
+    "a fresh variable; Data(source()); a fresh construct / bounds / interior ring; a fresh field; transplant from the twin); "
+    "in 65 % of the cases exactly one component, of a kind drawn uniformly from the 18 kinds the seeds have, is the only "
+    "file-backed one; to_memory() of one sub-object; write to X (mostly), M, Z or W.  "
+    "C10.path (25 %): X, Y, Z, optional hard link to X or Z, link chains of depth 1-3 to X / Z / Y / the hard link / an "
+    "absent name, a dangling link, a directory; a field read from X under one of 10 spellings (absolute, relative, ./, "
+    "sub/../, ~, $VAR, ${VAR}, a directory link, the link chain, the hard link), written alone or with an in-memory field / "
+    "a field from Y / an external cell measure, to any of these names under any spelling (or `$A` with A='$B/x.nc'), mode "
+    "w/a/r+, overwrite on/off (60 % of the overwrite=False cases aim at an existing file nobody needs, through a chain or "
+    "a hard link), external file, injected failures.  non-trivial = some written item still needs a file; "
+    "distinct = distinct (seeds, history, write request)"
 )
 ASSUMPTIONS = [
     "'overwrite disabled' concerns mode w (append mode ignores the option by design: appending is not overwriting)",
     "what an append (successful or failed) leaves in a file that no input needs is not constrained here (C17's subject); "
     "requests to append to such a file are generated only when a plain append of the same items works at all, and an "
     "interpreter crash during such an append is not counted (cfdm's append re-reads the target while it is open)",
-    "one level of symbolic links; hard links, bind mounts, case-insensitive or network file systems and OS-level partial "
-    "writes are not modelled (hard links: os.remove only drops the name, the data stay reachable)",
+    "C10.hist: one level of symbolic links; chains of links, hard links, dangling links, directories and the "
+    "expansion of ~ / $VAR are modelled and generated in C10.path; bind mounts, case-insensitive or network file systems, "
+    "symbolic-link loops and OS-level partial writes are not modelled",
+    "the property protects the constructs PASSED to the write: a construct that is not passed and still reads lazily from "
+    "the target loses its data when the target is overwritten (C10_bystander_not_protected) - nothing cfdm.write could "
+    "look at; the other registers of a history are only required to keep their metadata",
+    "the working directory does not change between read and write when a file was read under a relative name (file arrays "
+    "keep the name as given: after a chdir their data cannot be read at all, and the recorded absolute name still guards "
+    "the file)",
+    "what get_original_filenames() reports is an input of C10.path (the aggregation is C10.tree's subject); the names of "
+    "the file arrays come from an independent walk over __dict__",
+    "C10.tree compares refused / proceeds only (cfdm cannot write subsampled coordinates and most rebuilt UGRID fields: the "
+    "write fails after the target was opened - which is exactly when an unguarded source file is lost)",
     "the checks run as root: permission failures (read-only directory / file) cannot be provoked and are not generated",
     "aliasing between registers is avoided (every transplant copies, the domain view is only taken at the write)",
     "a failing write may leave a partial *target*; only files that an input still needs, the inputs themselves and "
@@ -137,6 +194,8 @@ _scratch = None
 _counter = [0]
 CTF = ["contiguous_file", "indexed_file", "indexed_contiguous_file", "gathered_file", "geometry_1_file",
        "interior_ring_file"]
+# test files used by the C10.tree stream only (cfdm cannot write subsampled coordinates; UGRID needs more care)
+CTF_TREE = ["subsampled_1", "ugrid_1", "ugrid_2"]
 _ctf_funcs = None
 
 
@@ -154,7 +213,7 @@ def pre():
     scratch()
     for i in range(8):
         seed_path(dict(kind="example", i=i))
-    for n in CTF:
+    for n in CTF + CTF_TREE:
         seed_path(dict(kind="ctf", name=n))
     for sd in COMP_SEEDS + GATH_SEEDS:
         seed_path(sd)
@@ -169,7 +228,7 @@ def ctf_funcs():
         ns = dict(netCDF4=netCDF4, np=np, VN="1.11", os=os)
         _ctf_funcs = {}
         for node in tree.body:
-            if isinstance(node, ast.FunctionDef) and node.name.startswith("_make_") and node.name[6:] in CTF:
+            if isinstance(node, ast.FunctionDef) and node.name.startswith("_make_") and node.name[6:] in CTF + CTF_TREE:
                 try:
                     exec(compile(ast.Module(body=[node], type_ignores=[]), "create_test_files.py", "exec"), ns)
                     _ctf_funcs[node.name[6:]] = ns[node.name]
@@ -1037,6 +1096,11 @@ def gen_write(rng, env, payload):
                 fault = "emit:0"
             if not _write_works(objs(), env, opts, ext is not None):
                 return None
+    # the items are final now: what THEY still need (items dropped above - domain views in append mode, all
+    # but the first when the set could not be written together - no longer count)
+    needed = set()
+    for it in items:
+        needed |= env.names(true_need(regs[int(it.rstrip("d"))]))
     if mode != "w" and env.real(target) not in set(env.real(x) for x in needed) and os.path.isfile(env.path[target]):
         # appending to a file nobody needs: keep the request only if a plain append of these items
         # works at all (cfdm's append re-reads the target while it is open and can fail or crash
@@ -1084,7 +1148,8 @@ def _append_works(items, path, opts):
     return st == 0
 
 
-def gen(rng, tier, n):
+def gen_hist(rng, n):
+    """At most n cases of the history stream."""
     produced = 0
     attempts = 0
     while produced < n and attempts < 3 * n:
@@ -1115,6 +1180,36 @@ def gen(rng, tier, n):
             env.close()
         yield make_case(payload)
         produced += 1
+
+
+def gen(rng, tier, n):
+    # shares of the three streams (the histories are by far the most expensive cases), interleaved so that
+    # a worker stopped at the time limit has covered all three in proportion
+    n_path = max(1, round(0.25 * n))
+    n_tree = max(1, round(0.25 * n))
+    n_hist = max(1, n - n_path - n_tree)
+    hist = gen_hist(rng, n_hist)
+    done = dict(path=0, tree=0, hist=0)
+    quota = dict(path=n_path, tree=n_tree, hist=n_hist)
+    k = 0
+    while any(done[s] < quota[s] for s in done):
+        s = ("path", "hist", "tree", "hist")[k % 4]
+        k += 1
+        if done[s] >= quota[s]:
+            continue
+        done[s] += 1
+        if s == "path":
+            p = PATH.gen_one(rng)
+            line, info = PATH.finish(p)
+            yield PATH.make_case(p, line, info)
+        elif s == "tree":
+            yield TREE.make_case(TREE.gen_one(rng))
+        else:
+            c = next(hist, None)
+            if c is None:
+                quota["hist"] = done["hist"] = 0
+            else:
+                yield c
 
 
 def line_of(p):
@@ -1150,6 +1245,10 @@ def make_case(p):
 
 
 def from_payload(stream, payload):
+    if stream == "C10.tree":
+        return TREE.from_payload(payload)
+    if stream == "C10.path":
+        return PATH.from_payload(payload)
     p = dict(payload)
     env = Env(p)
     try:
@@ -1174,6 +1273,10 @@ def spelled(env, n, how):
 
 
 def impl(c):
+    if c.stream == "C10.tree":
+        return TREE.impl(c)
+    if c.stream == "C10.path":
+        return PATH.impl(c)
     C = cfdm()
     p = c.payload
     env = Env(p)
@@ -1370,17 +1473,25 @@ def foreign_crash(c, O):
 
 
 def agree(c):
+    if c.stream == "C10.tree":
+        return TREE.agree(c)
+    if c.stream == "C10.path":
+        return PATH.agree(c)
     main, O = split_impl(c.impl_out)
     if foreign_crash(c, O):
         return True
     new, old, _ = halves(c.model_out)
-    # The two proposed patches are independent (one changes what get_original_filenames() reports,
-    # the other what the guard compares), so the two parts may follow different halves.
+    # The repairs are independent (7723aa6 changed what get_original_filenames() reports, 22fef00 what the
+    # guard compares), so the two parts may follow different halves.
     return (same_ops(main, new) or same_ops(main, old)) and (same_write(main, new) or same_write(main, old))
 
 
 # --------------------------------------------------------------------------- oracle
 def oracle(c):
+    if c.stream == "C10.tree":
+        return TREE.oracle(c)
+    if c.stream == "C10.path":
+        return PATH.oracle(c)
     main, O = split_impl(c.impl_out)
     if O is None:
         return f"the harness could not observe the case: {c.impl_out}"
@@ -1409,6 +1520,10 @@ def oracle(c):
 
 
 def classify(c):
+    if c.stream == "C10.tree":
+        return TREE.classify(c)
+    if c.stream == "C10.path":
+        return PATH.classify(c)
     main, O = split_impl(c.impl_out)
     new, old, why = halves(c.model_out)
     if O is None or old is None:
@@ -1515,9 +1630,52 @@ def _variants(p):
         yield dict(p, readvia="abs")
 
 
+def _variants_tree(p):
+    for i in range(len(p["steps"])):
+        yield dict(p, steps=p["steps"][:i] + p["steps"][i + 1:], mem=None)
+    if p["mem"] is not None:
+        yield dict(p, mem=None)
+
+
+def _variants_path(p):
+    if p["fault"] != "none":
+        yield dict(p, fault="none")
+    if len(p["items"]) > 1:
+        for i in range(len(p["items"])):
+            yield dict(p, items=p["items"][:i] + p["items"][i + 1:], fault="none")
+    for k in ("tspell", "espell", "readvia"):
+        if p.get(k) not in (None, "abs", "twice", "chain", "hard"):
+            yield dict(p, **{k: "abs"})
+    if p["links"] and p["readvia"] != "chain" and p["target"] not in p["links"] and p.get("ext") not in p["links"]:
+        yield dict(p, links={}, chainlen=1)
+    if p["hard"] and p["readvia"] != "hard" and p["target"] != "h.nc" and p.get("ext") != "h.nc" and \
+            "h.nc" not in p["links"].values():
+        yield dict(p, hard=None)
+    if p.get("ext") is not None and not any(i.endswith("e") for i in p["items"]):
+        yield dict(p, ext=None, espell=None)
+
+
 def shrink(c, run):
     sig = classify(c)
     best = c
+    if c.stream in ("C10.tree", "C10.path"):
+        variants = _variants_tree if c.stream == "C10.tree" else _variants_path
+        improved, steps = True, 0
+        while improved and steps < 40:
+            improved = False
+            for q in variants({k: v for k, v in best.payload.items() if k not in ("t", "info")}):
+                steps += 1
+                try:
+                    d = from_payload(c.stream, q)
+                    d.impl_out = impl(d)
+                    d.model_out = fw.model_run([d.line])[0]
+                    d.oracle_fail = oracle(d)
+                except Exception:
+                    continue
+                if d.oracle_fail and classify(d) == sig:
+                    best, improved = d, True
+                    break
+        return best if best is not c else None
     improved = True
     steps = 0
     while improved and steps < 60:
@@ -1539,7 +1697,7 @@ def shrink(c, run):
 
 
 def extra_coverage(run):
-    cs = [c for c, _, _ in run.failures if c.model_out]
+    cs = [c for c, _, _ in run.failures if c.model_out and c.stream == "C10.hist"]
     same = 0
     for c in cs:
         main, _ = split_impl(c.impl_out)
